@@ -569,15 +569,30 @@ func clientSendPath(name, history string, bound int) *vx.Scenario {
 		srv, mgr, _ := vrig.NewSioPair(scfg, nil)
 		var v vsched.Var
 		arrived := map[string]time.Duration{}
+		seenFlaky := map[string]int{}
+		flakyAt := map[string][]time.Duration{}
 		ready := false
 		srv.Use(func(s sio.ServerSocket, h *sio.Handshake) any {
 			s.OnEvent("m", func(tag string) { v.Do(func() { arrived[tag] = e.Clock() }) })
 			s.OnEvent("noack", func(tag string, ack func(string)) { v.Do(func() { arrived[tag] = e.Clock() }) }) // never answers
+			// answers only the second time it sees a tag (the first acknowledgement "gets lost")
+			s.OnEvent("flaky", func(tag string, ack func(string)) {
+				n := 0
+				v.Do(func() { seenFlaky[tag]++; n = seenFlaky[tag]; flakyAt[tag] = append(flakyAt[tag], e.Clock()) })
+				if n >= 2 {
+					ack("ok")
+				}
+			})
 			v.Do(func() { ready = true })
 			return nil
 		})
 		srv.OnConnection(func(sio.ServerSocket) {})
-		sock := mgr.Socket("/", nil)
+		var ccfg *sio.ClientSocketConfig
+		if history == "retry-after-an-ack-timeout" {
+			// the socket's own retry queue: an emit is sent again when its acknowledgement does not come in time
+			ccfg = &sio.ClientSocketConfig{Retries: 3, AckTimeout: time.Second}
+		}
+		sock := mgr.Socket("/", ccfg)
 		connected := false
 		sock.OnConnect(func() { v.Do(func() { connected = true }) })
 		timeouts := 0
@@ -607,6 +622,28 @@ func clientSendPath(name, history string, bound int) *vx.Scenario {
 		}
 		vsched.SetExploring(true)
 		sent := map[string]time.Duration{}
+		if history == "retry-after-an-ack-timeout" {
+			t0 := e.Clock()
+			acked := 0
+			sock.Emit("flaky", "r1", func(err error, s string) {
+				if err == nil {
+					v.Do(func() { acked++ })
+				}
+			})
+			vsched.Sleep(time.Minute) // nothing else is emitted in this minute: the retry has to go out by itself
+			return func() vx.Result {
+				var r vx.Result
+				at := flakyAt["r1"]
+				r.Outcome = fmt.Sprintf("seen=%v acked=%d", at, acked)
+				ctx := fmt.Sprintf("socket with Retries 3 / AckTimeout 1s emitted at %v an event whose first acknowledgement never comes: the server saw it at %v (a retry is due %v after each try), the emit was acknowledged %d time(s); nothing else was emitted for a minute", t0, at, time.Second, acked)
+				if len(at) < 2 || at[1] != t0+time.Second {
+					r.Violate("client send path: a retry waits in the socket's retry queue until other traffic flushes it", "%s", ctx)
+				} else if acked != 1 {
+					r.Violate("client send path: a retried emit is not acknowledged exactly once", "%s", ctx)
+				}
+				return r
+			}
+		}
 		for _, tag := range []string{"after-1", "after-2"} {
 			sent[tag] = e.Clock()
 			sock.Emit("m", tag)
@@ -671,6 +708,7 @@ func scenarios(tier string) []*vx.Scenario {
 		clientSendPath("client-send-path/after-two-ack-timeouts-fired", "two-ack-timeouts-fired", 1),
 		clientSendPath("client-send-path/after-events-were-buffered-while-connecting", "emitted-while-connecting", 1),
 		clientSendPath("client-send-path/after-a-volatile-emit", "volatile-emit", 1),
+		clientSendPath("client-send-path/retry-after-an-ack-timeout", "retry-after-an-ack-timeout", 1),
 	}
 	if tier == "thorough" {
 		s = append(s,
